@@ -245,5 +245,5 @@ Fixpoint overlapping (env : fenv) (e : expr) (p : Z) {struct e} : list ivl :=
       let left := join (first_some (contains p) st
                                    (fetch env (Compl s) None (Some (p + 1)) true)) in
       [mkI left right Plain]
-  | _ => fetch env e (Some p) (Some (p + 1)) false
+  | _ => filter (contains p) (fetch env e (Some p) (Some (p + 1)) false)
   end.
